@@ -513,6 +513,30 @@ func (em *emitter) emitAssignmentNode(node *ast.Assignment) {
 		return
 	}
 
+	// The arrays and the structs held by a non-local variable are copied when
+	// the variable is read, so an element or a field to assign, at any depth,
+	// is reached through a pointer to the variable, bound to its identifier as
+	// if it were an indirect local variable.
+	for _, v := range node.Lhs {
+		root := em.nonLocalAggregateRoot(v)
+		if root == nil || em.fb.declaredInFunc(root.Name) {
+			continue
+		}
+		if index, ok := em.varStore.nonLocalVarIndex(root); ok {
+			em.fb.enterScope()
+			defer em.fb.exitScope()
+			ptr := em.fb.newRegister(reflect.Pointer)
+			em.fb.emitGetVarAddr(index, ptr)
+			em.fb.bindVarReg(root.Name, -ptr)
+		}
+	}
+	nonLocalVarIndex := func(expr ast.Expression) (int, bool) {
+		if ident, ok := expr.(*ast.Identifier); ok && em.fb.declaredInFunc(ident.Name) {
+			return 0, false
+		}
+		return em.varStore.nonLocalVarIndex(expr)
+	}
+
 	// Emit an assignment.
 	addresses := make([]address, len(node.Lhs))
 	for i, v := range node.Lhs {
@@ -548,13 +572,13 @@ func (em *emitter) emitAssignmentNode(node *ast.Assignment) {
 			index := em.emitExpr(v.Index, indexType)
 			switch exprType.Kind() {
 			case reflect.Map:
-				if nonLocalMap, ok := em.varStore.nonLocalVarIndex(v.Expr); ok {
+				if nonLocalMap, ok := nonLocalVarIndex(v.Expr); ok {
 					addresses[i] = em.addressNonLocalMapIndex(nonLocalMap, expr, index, exprType, pos, node.Type)
 				} else {
 					addresses[i] = em.addressLocalMapIndex(expr, index, exprType, pos, node.Type)
 				}
 			case reflect.Slice, reflect.Array:
-				if nonLocalSlice, ok := em.varStore.nonLocalVarIndex(v.Expr); ok {
+				if nonLocalSlice, ok := nonLocalVarIndex(v.Expr); ok {
 					addresses[i] = em.addressGlobalSliceIndex(nonLocalSlice, expr, index, exprType, pos, node.Type)
 				} else {
 					addresses[i] = em.addressSliceIndex(expr, index, exprType, pos, node.Type)
@@ -578,7 +602,7 @@ func (em *emitter) emitAssignmentNode(node *ast.Assignment) {
 				field, _ = typ.FieldByName(v.Ident)
 			}
 			index := em.fb.makeFieldIndex(field.Index)
-			if nonLocalStruct, ok := em.varStore.nonLocalVarIndex(expr); ok {
+			if nonLocalStruct, ok := nonLocalVarIndex(expr); ok {
 				addresses[i] = em.addressNonLocalStructSelector(nonLocalStruct, reg, index, typ, pos, node.Type)
 			} else {
 				addresses[i] = em.addressLocalStructSelector(reg, index, typ, pos, node.Type)
@@ -601,6 +625,36 @@ func (em *emitter) emitAssignmentNode(node *ast.Assignment) {
 		}
 	}
 	em.assignValuesToAddresses(addresses, node.Rhs)
+}
+
+// nonLocalAggregateRoot returns the identifier of the array or struct variable
+// that contains the element or the field denoted by expr, an operand on the
+// left side of an assignment, without passing through a pointer, a slice or a
+// map. It returns nil if there is no such variable.
+func (em *emitter) nonLocalAggregateRoot(expr ast.Expression) *ast.Identifier {
+	for {
+		switch e := expr.(type) {
+		case *ast.Index:
+			expr = e.Expr
+		case *ast.Selector:
+			if _, ok := em.varStore.nonLocalVarIndex(e); ok {
+				return nil
+			}
+			expr = e.Expr
+		default:
+			return nil
+		}
+		ti := em.ti(expr)
+		if ti == nil || ti.Type == nil {
+			return nil
+		}
+		if k := ti.Type.Kind(); k != reflect.Array && k != reflect.Struct {
+			return nil
+		}
+		if ident, ok := expr.(*ast.Identifier); ok {
+			return ident
+		}
+	}
 }
 
 // emitAssignmentOperand emits expr, the operand with type typ of an index
